@@ -161,7 +161,9 @@ void ABTD_futex_timedwait_and_unlock(ABTD_futex_multiple *p_futex,
             } else {
                 ABTI_ASSERT(sync_obj.p_prev);
                 sync_obj.p_prev->p_next = sync_obj.p_next;
-                sync_obj.p_next->p_prev = sync_obj.p_prev;
+                /* This waiter can be the oldest one (i.e., the tail). */
+                if (sync_obj.p_next)
+                    sync_obj.p_next->p_prev = sync_obj.p_prev;
             }
         }
         ABTD_spinlock_release(p_lock);
